@@ -625,6 +625,11 @@ func (w *WAL) DeleteRange(min uint64, max uint64) error {
 	case min <= first: // max >= first implied by the first case not matching
 		// Note we allow head truncations where max > last which effectively removes
 		// the entire log.
+		if max > last {
+			// Nothing beyond last exists; this also keeps max+1 from overflowing
+			// (e.g. DeleteRange(first, math.MaxUint64)).
+			max = last
+		}
 		return w.truncateHeadLocked(max + 1)
 
 	//    |min----max|
